@@ -736,8 +736,16 @@ class EvalFunc:
             val = None
             if i < len(args):
                 val = args[i]
-                if var_name in kwargs:
+                if var_name in kwargs and (i >= self.num_posonly_arg or not self.func_def.args.kwarg):
                     raise TypeError(f"{self.name}() got multiple values for argument '{var_name}'")
+            elif var_name in kwargs and i < self.num_posonly_arg and self.func_def.args.kwarg:
+                # the name of a positional-only parameter may be reused as a key of **kwargs
+                if self.num_posn_arg <= i < len(self.defaults) + self.num_posn_arg:
+                    val = self.defaults[i - self.num_posn_arg]
+                else:
+                    raise TypeError(
+                        f"{self.name}() missing {self.num_posn_arg - i} required positional arguments"
+                    )
             elif var_name in kwargs:
                 if i < self.num_posonly_arg:
                     bad_kwargs.append(var_name)
